@@ -97,8 +97,15 @@ def gen_model(rng):
 
         def obj(role, parent=None, access=None, syn=None):
             p, a, t = oid(parent)
+            sy = syn or syntax()
+            dv = None
+            if role in ('scalar', 'column') and not sy.get('named') and not sy.get('ref') and rng.random() < 0.4:
+                if sy.get('type') in ('Counter32', 'Gauge32', 'TimeTicks', 'INTEGER'):
+                    dv = str(rng.choice([0, 1, 5, 100, 65535]))
+                elif sy.get('type') in ('OCTET STRING', 'DisplayString'):
+                    dv = '"%s"' % rng.choice(['abc', 'x y', ''])
             return add({'kind': 'object', 'role': role, 'name': namer.lower(pfx), 'parent': p, 'arc': a, 'oid': t,
-                        'syntax': syn or syntax(), 'access': access or rng.choice(ACCESS[:2]),
+                        'syntax': sy, 'defval': dv, 'access': access or rng.choice(ACCESS[:2]),
                         'status': rng.choice(sorted(STATUS12)), 'descr': ' '.join(rng.sample(WORDS, 3))})
         objs = []
         for _ in range(rng.randint(0, 4)):
@@ -207,6 +214,8 @@ def render(mods, v):
                 t = '%s OBJECT-TYPE SYNTAX %s %s %s STATUS %s DESCRIPTION "%s"' % (
                     d['name'], st, 'ACCESS' if v == 1 else 'MAX-ACCESS', d['access'],
                     STATUS12[d['status']] if v == 1 else d['status'], d['descr'])
+                if d.get('defval') is not None:
+                    t += ' DEFVAL { %s }' % d['defval']
                 if d.get('index'):
                     for c in d['index']:
                         if c['module'] != m['name']:
